@@ -9,7 +9,7 @@
 //   kind 0 trivial        (bytes only, trivially copyable; not counted by the ledger)
 //   kind 1 non-trivial    (user-provided copy/move/destructor, every object in the ledger)
 //   kind 2 move-only      (owns a heap long through std::unique_ptr; in the ledger)
-//   kind 3 shared         (owns a heap long through std::shared_ptr; in the ledger)
+//   kind 3 shared         (owns a heap long through std::shared_ptr; in the ledger; copyable, move constructor not noexcept)
 // `anydata --meta` prints the capacity, sizeof(LargeData), the type list and the maxSizeOf lists.
 #include "common.h"
 #include <deque>
@@ -118,7 +118,9 @@ struct Payload<3, N> : Pad<N - sizeof(std::shared_ptr<long>)>
 	std::shared_ptr<long> p;
 	explicit Payload(long v) : p(std::make_shared<long>(v)) { this->fill(v, 9); ledgerCtor(this); }
 	Payload(const Payload & o) : Pad<N - sizeof(std::shared_ptr<long>)>(o), p(o.p) { ledgerRead(&o); ledgerCtor(this); }
-	Payload(Payload && o) noexcept : Pad<N - sizeof(std::shared_ptr<long>)>(o), p(std::move(o.p)) { ledgerRead(&o); ledgerCtor(this); o.scramble(); }
+	// NOT noexcept on purpose: a copyable type whose move constructor may throw must still be MOVED when its AnyData is moved
+	// (a copy would leave a second owner behind, which value() notices)
+	Payload(Payload && o) : Pad<N - sizeof(std::shared_ptr<long>)>(o), p(std::move(o.p)) { ledgerRead(&o); ledgerCtor(this); o.scramble(); }
 	Payload & operator = (const Payload &) = delete;
 	~Payload() { ledgerDtor(this); this->scramble(); }
 	static Payload make(long v) { return Payload(v); }
